@@ -247,7 +247,8 @@ func c03MonOwner(c *ctx, w *hWorld, pre []map[string]*hAccount, sr *stepResult, 
 // Baseline = the stored lists when a world is first observed.  c05Save / c05Restore carry the expectation along.
 // ---------------------------------------------------------------------------------------------
 type c03Expect struct {
-	lists map[string][][]byte // "shard/addr/token" -> roles
+	lists    map[string][][]byte // "shard/addr/token" -> roles
+	reported map[string]string   // mismatches already reported (key -> stored list): the expectation keeps following the HISTORY
 }
 
 var c03Exp = map[*hWorld]*c03Expect{}
@@ -257,15 +258,18 @@ func c03ExpKey(shard uint32, addr, tok []byte) string {
 }
 
 func (e *c03Expect) clone() *c03Expect {
-	n := &c03Expect{lists: map[string][][]byte{}}
+	n := &c03Expect{lists: map[string][][]byte{}, reported: map[string]string{}}
 	for k, v := range e.lists {
 		n.lists[k] = append([][]byte(nil), v...)
+	}
+	for k, v := range e.reported {
+		n.reported[k] = v
 	}
 	return n
 }
 
 func c03Baseline(pre []map[string]*hAccount) *c03Expect {
-	e := &c03Expect{lists: map[string][][]byte{}}
+	e := &c03Expect{lists: map[string][][]byte{}, reported: map[string]string{}}
 	for sh, m := range pre {
 		for _, a := range m {
 			for k, v := range a.storage {
@@ -375,16 +379,20 @@ func c03MonRoleHistory(c *ctx, w *hWorld, pre []map[string]*hAccount, sr *stepRe
 				got = r.Roles
 			}
 			if !c03SameList(got, e.lists[ek]) {
-				c.fail("monitor", "role-list-mismatch/"+cs.Fn, fmt.Sprintf("after %s the role list of account %x for token %q is %q, the history of role operations gives %q", cs.Fn, a.addr, k[len(c05R):], got, e.lists[ek]), c05Replay(sr, hist))
-				e.lists[ek] = got // report once, then follow the storage
+				if sig := fmt.Sprintf("%q/%q", got, e.lists[ek]); e.reported[ek] != sig {
+					e.reported[ek] = sig
+					c.fail("monitor", "role-list-mismatch/"+cs.Fn, fmt.Sprintf("after %s the role list of account %x for token %q is %q, the history of role operations gives %q", cs.Fn, a.addr, k[len(c05R):], got, e.lists[ek]), c05Replay(sr, hist))
+				}
 			}
 		}
 	}
 	prefix := fmt.Sprintf("%d/", sh)
 	for ek, l := range e.lists {
 		if len(l) > 0 && !seen[ek] && strings.HasPrefix(ek, prefix) {
-			c.fail("monitor", "role-list-mismatch/"+cs.Fn, fmt.Sprintf("after %s a role list that the history gives as %q (%s) is absent from storage", cs.Fn, l, ek), c05Replay(sr, hist))
-			delete(e.lists, ek)
+			if sig := fmt.Sprintf("absent/%q", l); e.reported[ek] != sig {
+				e.reported[ek] = sig
+				c.fail("monitor", "role-list-mismatch/"+cs.Fn, fmt.Sprintf("after %s a role list that the history gives as %q (%s) is absent from storage", cs.Fn, l, ek), c05Replay(sr, hist))
+			}
 		}
 	}
 	if cs.Fn == "ESDTSetRole" || cs.Fn == "ESDTUnSetRole" || cs.Fn == "ESDTNFTCreateRoleTransfer" {
